@@ -86,6 +86,11 @@ func (c13) Gen(r *world.Rng, tier string, n int) interface{} {
 	} else if r.Chance(1, 3) && sc.Prog != "sled" && sc.Prog != "ring" && sc.Prog != "fwdio" {
 		sc.BP = []uint16{0x4000, 0x0101} // never hit (0x0101 is inside the first instruction)
 	}
+	if sc.Prog != "structured" && r.Chance(1, 3) {
+		// the loop spins with interrupts disabled while a maskable request is waiting (refused for ever):
+		// cancellation must get through all the same
+		sc.Events = []world.Event{{Kind: world.EvINT, Data: []string{"", "ff", "10"}[r.Intn(3)], AtTick: uint64(r.Range(1, 3))}}
+	}
 	if strings.HasSuffix(tier, "-race") && n%2 == 0 {
 		sc.Kind = "free"
 		sc.Parent = []string{"withcancel", "withtimeout", "nested"}[r.Intn(3)]
@@ -94,7 +99,8 @@ func (c13) Gen(r *world.Rng, tier string, n int) interface{} {
 		sc.FreeSpin = r.Pick(0, 1, 10, 100, 1000, 10000)
 		if sc.Prog == "structured" {
 			sc.Prog = "jr"
-			sc.Struct, sc.Handlers, sc.Table, sc.Events, sc.BP = nil, nil, nil, nil, nil
+			sc.Struct, sc.Handlers, sc.Table, sc.BP = nil, nil, nil, nil
+			sc.Events = nil
 		}
 		return sc
 	}
@@ -495,9 +501,16 @@ func c13One(sc *C13Sc, cancelTick uint64, env *Env) *Violation {
 		return viol("ran-past-stop", "%s: repeated Step stops with %s at tick %d, Run went on to tick %d", what, errName(natErr), tw.Bus.Tick, T)
 	}
 	if natural {
-		if !errors.Is(err, natErr) || (err == nil) != (natErr == nil) {
-			// cancellation seen before this Step would have returned earlier; at this boundary the stop rule wins
-			return viol("error-value", "%s: at tick %d the stop rule fired (%s) but Run returned %v", what, T, errName(natErr), err)
+		okNat := errors.Is(err, natErr) && (err == nil) == (natErr == nil)
+		// The statements rank neither "stop rule" nor "context already cancelled" above the other: when the
+		// cancellation was fired before this boundary, returning the context's error here is just as right.
+		cerr := ctx.Err()
+		okCtx := fired && err != nil && cerr != nil && errors.Is(err, cerr)
+		if !okNat && !okCtx {
+			return viol("error-value", "%s: at tick %d the stop rule fired (%s) but Run returned %v (context error: %v)", what, T, errName(natErr), err, cerr)
+		}
+		if !okNat {
+			natural = false // ended by the cancellation after all
 		}
 	} else {
 		cerr := ctx.Err()
